@@ -381,12 +381,15 @@ func runTwoHubs(id int, seed int64, nops int) *thResult {
 		k := rnd.Intn(100)
 		if targeted && rnd.Intn(3) == 0 {
 			k = 93 + rnd.Intn(5)
-			if rnd.Intn(4) == 0 {
+			switch r := rnd.Intn(12); {
+			case r < 3:
 				k = 200
-			} else if rnd.Intn(6) == 0 {
+			case r < 4:
 				k = 201
-			} else if rnd.Intn(4) == 0 {
+			case r < 6:
 				k = 202
+			case r < 8:
+				k = 203
 			}
 		}
 		switch {
@@ -414,6 +417,14 @@ func runTwoHubs(id int, seed int64, nops int) *thResult {
 			op("cancel" + n.name)
 		case k < 77:
 			n.hub.DisconnectSKI(o.ski, "bye")
+			if rnd.Intn(3) == 0 && o.running {
+				// both applications disconnect at nearly the same time: the peer's close arrives inside the
+				// grace period of the own graceful close
+				time.Sleep(time.Duration(rnd.Intn(400)) * time.Millisecond)
+				o.hub.DisconnectSKI(n.ski, "bye too")
+				op("discBoth" + n.name)
+				break
+			}
 			op("disc" + n.name)
 		case k < 82:
 			on := rnd.Intn(2) == 0
@@ -529,6 +540,48 @@ func runTwoHubs(id int, seed int64, nops int) *thResult {
 			}
 			a.via.dropHoled()
 			b.via.dropHoled()
+		case k == 203:
+			// both applications disconnect a completed connection at nearly the same time: each side's close arrives
+			// inside the grace period of the other's graceful close. Both stay paired and visible, so they have to find
+			// each other again
+			if !n.running || !o.running || pinned[n.name] == "SomeOtherShipID" || pinned[o.name] == "SomeOtherShipID" {
+				continue
+			}
+			for _, x := range []*thNode{n, o} {
+				x.hub.RegisterRemoteSKI(other(x).ski)
+				x.mdns.publish(other(x).entry())
+				reg[x.name], vis[x.name], cancelled[x.name] = true, true, false
+			}
+			up203 := false
+			for i := 0; i < 60 && !up203; i++ {
+				time.Sleep(50 * time.Millisecond)
+				up203 = n.facts(o).connState == int(model.SmeStateComplete) && o.facts(n).connState == int(model.SmeStateComplete)
+			}
+			if !up203 {
+				op("regA,regB,visA,visB")
+				continue
+			}
+			n.hub.DisconnectSKI(o.ski, "bye")
+			time.Sleep(time.Duration(rnd.Intn(450)) * time.Millisecond)
+			o.hub.DisconnectSKI(n.ski, "bye too")
+			op("regA,regB,visA,visB,disc" + n.name + "+" + o.name)
+			time.Sleep(time.Duration(1200+rnd.Intn(500)) * time.Millisecond)
+			// both ends are reported by now: neither hub may still hold the old connection
+			for _, x := range []*thNode{n, o} {
+				x.mdns.publish(other(x).entry())
+			}
+			back := false
+			for i := 0; i < 120 && !back; i++ {
+				time.Sleep(50 * time.Millisecond)
+				fn, fo := n.facts(o), o.facts(n)
+				back = fn.connState == int(model.SmeStateComplete) && fo.connState == int(model.SmeStateComplete) && fn.lastLife == "setup" && fo.lastLife == "setup" && fn.setups >= 2 && fo.setups >= 2
+			}
+			if !back {
+				fn, fo := n.facts(o), o.facts(n)
+				res.bad = append(res.bad, fmt.Sprintf("C05 both applications disconnected the completed connection within 450 ms of each other; both hubs stay paired and see each other, but 7 s later there is no new completed connection: %s holds state %d (set up %d, disconnected %d, last %q), %s holds state %d (set up %d, disconnected %d, last %q)",
+					n.name, fn.connState, fn.setups, fn.discs, fn.lastLife, o.name, fo.connState, fo.setups, fo.discs, fo.lastLife))
+				res.bad = append(res.bad, fmt.Sprintf("C11 after both applications disconnected, a hub still holds the ended connection: %s state %d, %s state %d", n.name, fn.connState, o.name, fo.connState))
+			}
 		case k == 201:
 			// the hub is shut down while it is establishing a connection; afterwards the application starts a new one
 			if rnd.Intn(3) != 0 && o.running {
